@@ -669,6 +669,10 @@ class TextXVisitor(RRELVisitor):
             root_rule = Sequence(
                 nodes=[root_rule], rule_name=rule_name, root=True, **rule_params
             )
+            if "split" in rule_params:
+                # Not a parameter of the Arpeggio expression. Keep it on the
+                # rule like in the branch bellow.
+                root_rule.split = rule_params["split"]
         else:
             if not isinstance(root_rule, RuleCrossRef):
                 # Promote rule node to root node.
